@@ -30,21 +30,24 @@ Definition edge_mem (e : Z * Z) (g : graph) : bool := existsb (fun x => (fst x =
 Definition same_edges (a b : graph) : bool := forallb (fun e => edge_mem e b) a && forallb (fun e => edge_mem e a) b.
 
 (* frame-local checks; last = is this the final frame of a run that stopped by itself *)
-Definition frame_clause (f : frame) (last : bool) : option Z :=
-  if negb (same_edges (G f) (W f)) then Some 90                  (* the maintained digraph is the true wait-for relation *)
-  else if negb (Bool.eqb (deadlocked (G f) (V f)) (nx f)) then Some 91  (* knot search (networkx) = structural definition *)
+(* strict = also check the mechanism (clauses 90, 91); with strict = false only the
+   property's own clauses (92, 93) are checked, which is what the harness uses to look for
+   a genuine failing input after a mechanism clause has failed *)
+Definition frame_clause (strict : bool) (f : frame) (last : bool) : option Z :=
+  if strict && negb (same_edges (G f) (W f)) then Some 90        (* the maintained digraph is the true wait-for relation *)
+  else if strict && negb (Bool.eqb (deadlocked (G f) (V f)) (nx f)) then Some 91  (* knot search (networkx) = structural definition *)
   else if last && negb (deadlocked (W f) (V f)) then Some 92    (* sound: stopped => genuine deadlock *)
   else if negb last && deadlocked (W f) (V f) then Some 93      (* complete: never runs past a deadlock *)
   else None.
 
-Fixpoint scan_frames (k : Z) (l : list frame) (stopped : bool) : option (Z * Z) :=
+Fixpoint scan_frames (strict : bool) (k : Z) (l : list frame) (stopped : bool) : option (Z * Z) :=
   match l with
   | [] => None
   | f :: r =>
     let last := stopped && match r with [] => true | _ => false end in
-    match frame_clause f last with
+    match frame_clause strict f last with
     | Some c => Some (k, c)
-    | None => scan_frames (k + 1) r stopped
+    | None => scan_frames strict (k + 1) r stopped
     end
   end.
 
@@ -58,8 +61,8 @@ Definition ttd_ok (tr : list frame) (fin : final) : bool :=
                      | None => false end) (ttd fin)
   && forallb (fun f => existsb (fun sv => fst sv =? st f) (ttd fin)) tr.
 
-Definition acc (f0 : frame) (tr : list frame) (fin : final) : verdict :=
-  match scan_frames 1 tr (stopped_itself fin) with
+Definition acc (strict : bool) (f0 : frame) (tr : list frame) (fin : final) : verdict :=
+  match scan_frames strict 1 tr (stopped_itself fin) with
   | Some (k, c) => Reject k c []
   | None =>
     if deadlocked (W f0) (V f0) then Reject 0 93 []
@@ -70,58 +73,66 @@ Definition acc (f0 : frame) (tr : list frame) (fin : final) : verdict :=
 
 Definition run (s : sx) : verdict :=
   match s with
-  | L [f0; t; fin] =>
+  | L [A mode; f0; t; fin] =>
     match decode_frame f0, (do l <- getL t; omap decode_frame l), decode_final fin with
-    | Some f0', Some tr, Some fin' => acc f0' tr fin'
+    | Some f0', Some tr, Some fin' => acc (mode =? 0) f0' tr fin'
     | _, _, _ => BadInput 0
     end
   | _ => BadInput 0
   end.
 
 (* ---- T1 ---- *)
-Lemma scan_frames_ok : forall l k stopped, scan_frames k l stopped = None ->
+Lemma scan_frames_ok : forall strict l k stopped, scan_frames strict k l stopped = None ->
   forall pre f post, l = pre ++ f :: post ->
-    same_edges (G f) (W f) = true /\ deadlocked (G f) (V f) = nx f /\
+    (strict = true -> same_edges (G f) (W f) = true /\ deadlocked (G f) (V f) = nx f) /\
     (stopped = true -> post = [] -> deadlocked (W f) (V f) = true) /\
     ((stopped = false \/ post <> []) -> deadlocked (W f) (V f) = false).
 Proof.
-  induction l as [|x r IH]; intros k stopped H pre f post E; [destruct pre; discriminate|].
+  intros strict. induction l as [|x r IH]; intros k stopped H pre f post E; [destruct pre; discriminate|].
   cbn [scan_frames] in H.
-  destruct (frame_clause x (stopped && match r with [] => true | _ => false end)) eqn:Ec; [discriminate|].
+  destruct (frame_clause strict x (stopped && match r with [] => true | _ => false end)) eqn:Ec; [discriminate|].
   destruct pre as [|p pre]; cbn in E.
   - injection E as -> ->. unfold frame_clause in Ec.
-    destruct (same_edges (G f) (W f)); cbn in Ec; [|discriminate].
-    destruct (Bool.eqb (deadlocked (G f) (V f)) (nx f)) eqn:E2; cbn in Ec; [|discriminate].
-    apply Bool.eqb_prop in E2.
+    assert (Hm : strict = true -> same_edges (G f) (W f) = true /\ deadlocked (G f) (V f) = nx f).
+    { intros ->. cbn in Ec. destruct (same_edges (G f) (W f)); cbn in Ec; [|discriminate].
+      destruct (Bool.eqb (deadlocked (G f) (V f)) (nx f)) eqn:E2; cbn in Ec; [|discriminate].
+      apply Bool.eqb_prop in E2. auto. }
+    assert (Ec' : (if stopped && match post with [] => true | _ => false end && negb (deadlocked (W f) (V f)) then Some 92
+                   else if negb (stopped && match post with [] => true | _ => false end) && deadlocked (W f) (V f) then Some 93
+                   else None) = None).
+    { destruct strict; cbn in Ec.
+      - destruct (same_edges (G f) (W f)); cbn in Ec; [|discriminate].
+        destruct (Bool.eqb (deadlocked (G f) (V f)) (nx f)); cbn in Ec; [|discriminate]. exact Ec.
+      - exact Ec. }
+    split; [exact Hm|].
     destruct (deadlocked (W f) (V f)) eqn:Ed.
-    + split; [reflexivity|split; [exact E2|split; [auto|]]].
-      intros Hc. destruct stopped; cbn in Ec.
-      * destruct post; cbn in Ec; [destruct Hc; congruence|discriminate].
+    + split; [auto|]. intros Hc. destruct stopped; cbn in Ec'.
+      * destruct post; cbn in Ec'; [destruct Hc; congruence|discriminate].
       * discriminate.
-    + split; [reflexivity|split; [exact E2|split; [|auto]]].
-      intros -> ->. cbn in Ec. discriminate.
+    + split; [|auto]. intros -> ->. cbn in Ec'. discriminate.
   - injection E as -> ->. eapply IH; eauto.
 Qed.
 
-(* an accepted run of simulate_until_deadlock: at every frame the digraph is the true wait-for
-   relation and the knot search agrees with the structural definition; the run never continues
-   past a state with a genuine deadlock (Deadlock.D) and, when it stops by itself, stops in one;
-   every reported time to deadlock is deadlock time - first visit, non-negative *)
-Theorem C18_sound : forall f0 tr fin stt, acc f0 tr fin = Accept stt ->
+(* an accepted run of simulate_until_deadlock (any mode): the run never continues past a state
+   with a genuine deadlock (Deadlock.D on the TRUE wait-for relation W) and, when it stops by
+   itself, stops in one; every reported time to deadlock is deadlock time - first visit,
+   non-negative.  In strict mode additionally: at every frame the detector's digraph is the true
+   wait-for relation and the knot search agrees with the structural definition. *)
+Theorem C18_sound : forall strict f0 tr fin stt, acc strict f0 tr fin = Accept stt ->
   (forall pre f post, tr = pre ++ f :: post ->
-     same_edges (G f) (W f) = true /\ deadlocked (G f) (V f) = nx f /\
+     (strict = true -> same_edges (G f) (W f) = true /\ deadlocked (G f) (V f) = nx f) /\
      (stopped_itself fin = true -> post = [] -> D (W f) (V f)) /\
      ((stopped_itself fin = false \/ post <> []) -> ~ D (W f) (V f))) /\
   ~ D (W f0) (V f0) /\
   (stopped_itself fin = true -> forall s v, In (s, v) (ttd fin) ->
      exists t0, first_visit s (f0 :: tr) = Some t0 /\ v = t_dead fin - t0 /\ 0 <= v).
 Proof.
-  intros f0 tr fin stt H. unfold acc in H.
-  destruct (scan_frames 1 tr (stopped_itself fin)) as [[k c]|] eqn:Es; [discriminate|].
+  intros strict f0 tr fin stt H. unfold acc in H.
+  destruct (scan_frames strict 1 tr (stopped_itself fin)) as [[k c]|] eqn:Es; [discriminate|].
   destruct (deadlocked (W f0) (V f0)) eqn:E0; [discriminate|].
   split; [|split].
-  - intros pre f post E. destruct (scan_frames_ok _ _ _ Es pre f post E) as (A1 & A2 & A3 & A4).
-    split; [exact A1|split; [exact A2|split]].
+  - intros pre f post E. destruct (scan_frames_ok _ _ _ _ Es pre f post E) as (A1 & A3 & A4).
+    split; [exact A1|split].
     + intros Hs Hp. apply deadlocked_iff_D. auto.
     + intros Hc HD. apply deadlocked_iff_D in HD. rewrite (A4 Hc) in HD. discriminate.
   - intros HD. apply deadlocked_iff_D in HD. congruence.
@@ -134,13 +145,13 @@ Proof.
 Qed.
 
 Example acc_example :
-  is_accept (acc (mkFrame [11;21] [] [] false 0 0)
+  is_accept (acc true (mkFrame [11;21] [] [] false 0 0)
     [ mkFrame [11;21] [(11,21)] [(11,21)] false 1 4;
       mkFrame [11;21] [(11,21);(21,11)] [(21,11);(11,21)] true 2 6 ]
     (mkFinal true 6 [(0,6);(1,2);(2,0)])) = true.
 Proof. vm_compute. reflexivity. Qed.
 Example rej_missed :
-  acc (mkFrame [11;21] [] [] false 0 0)
+  acc true (mkFrame [11;21] [] [] false 0 0)
     [ mkFrame [11;21] [(11,21);(21,11)] [(21,11);(11,21)] true 2 6; mkFrame [11;21] [(11,21);(21,11)] [(21,11);(11,21)] true 2 7 ]
     (mkFinal true 7 []) = Reject 1 93 [].
 Proof. vm_compute. reflexivity. Qed.
